@@ -34,6 +34,7 @@ async fn fault_enum() {
 	let mut nontrivial = 0u64;
 	let mut failures: Vec<String> = Vec::new();
 	let mut kf_reappears = 0u64;
+	let mut harness_skips = 0u64;
 	let mut kf_example = String::new();
 	let mut samples: Vec<String> = Vec::new();
 	let keys: [&[u8]; 4] = [b"a", b"b", b"a", b"c"];
@@ -116,7 +117,8 @@ async fn fault_enum() {
 		if bad.is_none() {
 			let image = dir.path().join("image");
 			if copy_dir_all(&live, &image).is_err() {
-				bad = Some("harness: could not copy the directory".into());
+				// harness problem: decides nothing for this placement
+				harness_skips += 1;
 			} else {
 				match TreeBuilder::new().with_path(image).with_flush_on_close(false).build() {
 					Err(e) => bad = Some(format!("reopen of the crash image failed: {e}")),
@@ -158,7 +160,7 @@ async fn fault_enum() {
 		}
 	}
 	println!(
-		"REPLAY-RESULT {{\"driver\":\"commit::fault_enum\",\"cases\":{cases},\"distinct_nontrivial\":{nontrivial},\"samples\":[{}],\"kf_candidates\":{{\"F25\":{{\"count\":{kf_reappears},\"example\":{}}}}},\"failures\":[{}]}}",
+		"REPLAY-RESULT {{\"driver\":\"commit::fault_enum\",\"cases\":{cases},\"distinct_nontrivial\":{nontrivial},\"harness_skips\":{harness_skips},\"samples\":[{}],\"kf_candidates\":{{\"F25\":{{\"count\":{kf_reappears},\"example\":{}}}}},\"failures\":[{}]}}",
 		samples.join(","),
 		if kf_example.is_empty() { "null".to_string() } else { kf_example.clone() },
 		failures.join(",")
